@@ -69,8 +69,42 @@ impl Prop for C16 {
             1 => (0.0..=0.5f64, any::<bool>()).prop_map(|(d, s)| if s { 180.0 - d } else { -180.0 + d }),
         ];
         let elev = prop_oneof![2 => Just(0.0), 4 => -420.0..=8848.0f64, 1 => prop_oneof![Just(-420.0), Just(8848.0)]];
-        (lat, lon, elev.clone(), elev)
-            .prop_map(|(lat, lon, e1, e2)| {
+        let general = (lat, lon).boxed();
+        // constructed: points at angular distance 0.1..0.3 deg from the Kaaba or its antipode (just outside the exemption)
+        let ring = (0.1001..=0.3f64, 0.0..=360.0f64, any::<bool>())
+            .prop_map(|(dist, brg, anti)| {
+                let (p0, l0) = if anti { (-oq::KAABA_LAT, wrap_lon(oq::KAABA_LON + 180.0)) } else { (oq::KAABA_LAT, oq::KAABA_LON) };
+                let (p0r, dr, br) = (p0.to_radians(), dist.to_radians(), brg.to_radians());
+                let lat = (p0r.sin() * dr.cos() + p0r.cos() * dr.sin() * br.cos()).asin();
+                let lon = l0.to_radians() + (br.sin() * dr.sin() * p0r.cos()).atan2(dr.cos() - p0r.sin() * lat.sin());
+                (lat.to_degrees(), wrap_lon(lon.to_degrees()))
+            })
+            .boxed();
+        // constructed: points on (or within 1e-9..1e-3 deg of) the curve where the Qibla is exactly due east / west,
+        // found by bisecting the oracle bearing over the latitude at a generated longitude
+        let quarter = (-180.0..=180.0f64, -9.0..=-3.0f64, any::<bool>())
+            .prop_map(|(lon, e, up)| {
+                let f = |lat: f64| oq::qibla(lat, lon).abs() - 90.0;
+                let (mut lo, mut hi) = (-89.9f64, 89.9f64);
+                if f(lo) * f(hi) > 0.0 {
+                    return (10.0, lon);
+                }
+                let flo = f(lo);
+                for _ in 0..80 {
+                    let mid = 0.5 * (lo + hi);
+                    if f(mid) * flo > 0.0 {
+                        lo = mid;
+                    } else {
+                        hi = mid;
+                    }
+                }
+                let d = 10f64.powf(e);
+                ((lo + if up { d } else { -d }).clamp(-89.999, 89.999), lon)
+            })
+            .boxed();
+        let point = prop_oneof![12 => general, 1 => ring, 1 => quarter];
+        (point, elev.clone(), elev)
+            .prop_map(|((lat, lon), e1, e2)| {
                 let (lat, lon) = push_out(lat, lon);
                 Case { lat: F(lat), lon: F(lon), elev: F(e1), elev2: F(e2) }
             })
@@ -178,13 +212,19 @@ impl Prop for C16 {
         if dl.abs() > 179.5 {
             st.class("kaaba_antimeridian_within_0.5deg");
         }
+        if d < 0.3 || d > 179.7 {
+            st.class("within_0.3deg_of_kaaba_or_antipode_(outside_the_exemption)");
+        }
+        if (want.abs() - 90.0).abs() < 1e-3 {
+            st.class("bearing_within_1e-3deg_of_due_east_or_west");
+        }
         if st.want_sample() {
             st.sample(json!({"case": c, "library_deg": got, "oracle_deg": want, "text": text}));
         }
         Ok(())
     }
     fn rule(&self) -> String {
-        "generated (lat, lon, two elevations) from a mixture: uniform, Kaaba meridian and antimeridian +-0.5 deg, date line, near the Kaaba, near the poles; points within 0.1 deg of the Kaaba/antipode are constructed out. Every case outside that exemption is non-trivial; distinct = distinct hash of (lat, lon, elevations)".into()
+        "generated (lat, lon, two elevations) from a mixture: uniform, Kaaba meridian and antimeridian +-0.5 deg, date line, near the Kaaba, near the poles, a ring 0.1-0.3 deg around the Kaaba and its antipode, and points within 1e-9..1e-3 deg of the curve where the bearing is exactly due east/west (constructed by bisecting the oracle); points within 0.1 deg of the Kaaba/antipode are constructed out. Every case outside that exemption is non-trivial; distinct = distinct hash of (lat, lon, elevations)".into()
     }
     fn assumptions(&self) -> Vec<String> {
         vec![
